@@ -26,11 +26,12 @@ RULE = ("case = one transfer (direction, API path, payload length, size declared
 ASSUMPTIONS = ["reference server transcribed from CiA 301 7.2.4; it accepts short non-final segments (legal)",
                "raw (buffering=0) expedited writes are offered whole payloads (API design: a short write returns 0)",
                "declared size always equals the bytes written (anything else is a caller error)"]
-REQUIRED = {"server_frames_validated": 2000, "download_store_compared": 300, "upload_bytes_compared": 300}
+REQUIRED = {"server_frames_validated": 2000, "download_store_compared": 300, "upload_bytes_compared": 300, "client_abort_frames_checked": 40}
 EXHAUSTIVE = ["payload lengths 0..64 for download() and upload() on every server style"]
 
 BOUNDARY_Q = [27, 28, 29, 34, 35, 36, 62, 63, 64, 126, 127, 128]
 BOUNDARY_T = [126, 127, 128, 255, 256, 888, 889, 890, 895, 896, 1000, 4096, 10000, 70000]
+FILLS = [[3], [5, 7], [7, 1, 6], [2, 7, 7, 4], [0, 7], [1, 0, 0]]
 MUXES = [(0x0001, 0), (0x1000, 0), (0x1018, 1), (0x2000, 0xFF), (0x5FFF, 0xFE), (0xFFFF, 0), (0xFFFF, 0xFF), (0x6040, 0), (0x1F50, 1)]
 
 
@@ -82,8 +83,12 @@ def plan(tier, seed):
     lengths = sorted(set(lengths))
     shards = 16
     reps = 1 if tier == "quick" else 4
-    return [{"lengths": lengths[i::shards], "full_variants_upto": 24 if tier == "quick" else 130,
-             "sampled": 10 if tier == "quick" else 60, "case_seed": seed * 1000 + i + 100 * r} for r in range(reps) for i in range(shards)]
+    out = [{"lengths": lengths[i::shards], "full_variants_upto": 24 if tier == "quick" else 130,
+            "sampled": 10 if tier == "quick" else 60, "case_seed": seed * 1000 + i + 100 * r} for r in range(reps) for i in range(shards)]
+    # transfers the client gives up (time-out, explicit abort()): the abort frame is a request frame like any other
+    out += [{"abandon": True, "case_seed": seed * 1000 + r, "kinds": ks}
+            for r in range(reps) for ks in (["exp_dl", "seg_dl", "seg_dl_nosize"], ["exp_ul", "seg_ul", "explicit"], ["blk_dl"], ["blk_ul"])]
+    return out
 
 
 def cases(desc):
@@ -124,6 +129,17 @@ def cases(desc):
                         for rk in ("all", "ones", "random", "readinto", "mixed"):
                             variants.append({"dir": "up", "path": "open", "style": style, "buffering": buffering, "reads": rk})
                     variants.append({"dir": "up", "path": "text", "style": style, "buffering": 16})
+        # servers that fill non-final segments only partly (n > 0 with c = 0), down to no data at all in a segment
+        for fill in FILLS:
+            for size_ind in (True, False):
+                style = {"upload_size_indicated": size_ind, "expedited_upload": True, "expedited_size_indicated": True,
+                         "segment_fill": fill}
+                variants.append({"dir": "up", "path": "upload", "style": style})
+                variants.append({"dir": "up", "path": "upload-declared", "style": style})
+                for buffering in (0, 3, 8, 1024):
+                    for rk in ("all", "random", "readinto", "mixed"):
+                        variants.append({"dir": "up", "path": "open", "style": style, "buffering": buffering, "reads": rk})
+                variants.append({"dir": "up", "path": "text", "style": style, "buffering": 16})
         if not full:
             keep = [v for v in variants if v["path"] in ("download", "upload", "variable")]
             rest = [v for v in variants if v["path"] not in ("download", "upload", "variable")]
@@ -148,7 +164,7 @@ def cases(desc):
 def signature(c):
     return (c["dir"], c["path"], lenclass(c["n"]), c.get("declare"), c.get("force"), c.get("buffering"),
             c.get("chunks") or c.get("reads") or c.get("via"),
-            tuple(sorted(c["style"].items())) if "style" in c else None)
+            tuple(sorted((k, tuple(v) if isinstance(v, list) else v) for k, v in c["style"].items())) if "style" in c else None)
 
 
 def nontrivial(c):
@@ -156,7 +172,88 @@ def nontrivial(c):
     return n > 4 or n in (0, 4) or c.get("force") or c.get("declare") is False or (c.get("style") or {}).get("expedited_upload") is False
 
 
+ABANDON_LENGTHS = {"exp_dl": [1, 4], "seg_dl": [5, 15, 30], "seg_dl_nosize": [0, 9], "exp_ul": [2, 4], "seg_ul": [5, 16, 29],
+                   "blk_dl": [6, 50, 100], "blk_ul": [6, 50, 100], "explicit": [16, 40]}
+
+
+def run_abandon(ctx, desc):
+    """The client ends a transfer itself: after a lost response (time-out) or through SdoClient.abort().  The abort
+    frame it emits must be a legal request frame: 8 bytes, command specifier 4, the multiplexer of the transfer."""
+    import struct
+    from canmon import faults
+    from canmon.props import c07
+    from canopen.sdo.exceptions import SdoError
+    rng = random.Random(repr(("abandon", desc["case_seed"])))
+    for kind in desc["kinds"]:
+        for n in ABANDON_LENGTHS[kind]:
+            mux = list(rng.choice(MUXES[1:])) if rng.random() < 0.6 else [rng.randint(1, 0x1FFF), rng.randint(0, 255)]
+            data = payload(n, rng.randint(0, 1 << 30))
+
+            def fresh():
+                rig = rigs.ClientRig(node_id=5, od=gen.typed_od(rpdos=(), tpdos=()), timeout=0.003, blk_sizes=[5])
+                rig.blk, rig.peer, rig.server_name = 5, "ref", "refserver"
+                rig.server.store[tuple(mux)] = data
+                return rig
+
+            def judge(rig, c, expect_code=None):
+                frames = [f for f in rig.bus.log if f.src == "master" and f.can_id == rig.rx and f.data[:1] == b"\x80"]
+                ctx.case(("abandon", kind, c.get("stepclass"), lenclass(n)), True)
+                if not frames:
+                    return False
+                for f in frames:
+                    ctx.count("client_abort_frames_checked")
+                    if len(f.data) != 8:
+                        ctx.violation("wire:client-frame-not-8-bytes", f"client abort frame of {len(f.data)} bytes: {f.data.hex()}", c, rig.wire(30))
+                        continue
+                    _, index, sub, code = struct.unpack("<BHBL", f.data)
+                    if [index, sub] != mux:
+                        ctx.violation("wire:client-abort-multiplexer",
+                                      f"client abort frame {f.data.hex()} names {index:#06x}:{sub:#04x}, the abandoned transfer is on "
+                                      f"{mux[0]:#06x}:{mux[1]:#04x}", c, rig.wire(30))
+                    if expect_code is not None and code != expect_code:
+                        ctx.violation("wire:client-abort-code", f"abort({expect_code:#010x}) emitted code {code:#010x}", c, rig.wire(30))
+                return True
+
+            if kind == "explicit":
+                for code in (0x08000000, 0x05040000, rng.getrandbits(32)):
+                    rig = fresh()
+                    c = {"abandon": True, "kind": kind, "n": n, "mux": mux, "code": code}
+                    fp = rig.sdo.open(mux[0], mux[1], "rb", buffering=0)
+                    fp.read(7)
+                    rig.sdo.abort(code)
+                    judge(rig, c, code)
+                    if rig.server.state != "idle":
+                        ctx.violation("abort-did-not-end-transfer", f"server state {rig.server.state!r} after SdoClient.abort()", c, rig.wire(30))
+                    rig.close()
+                continue
+            rig = fresh()
+            c07.do_transfer(rig, kind, mux, data)
+            nresp = len([f for f in rig.bus.log if f.src == "refserver" and f.can_id == rig.tx])
+            rig.close()
+            for k in range(nresp):
+                rig = fresh()
+                c = {"abandon": True, "kind": kind, "n": n, "mux": mux, "k": k, "stepclass": "initiate" if k == 0 else "last" if k == nresp - 1 else "middle"}
+                rig.bus.fault = faults.OneShot(c07.response_pred(rig), k, faults.drop)
+                try:
+                    c07.do_transfer(rig, kind, mux, data)
+                    raised = False
+                except SdoError:
+                    raised = True
+                except Exception as exc:  # noqa: BLE001
+                    ctx.violation(f"transfer-raised:{type(exc).__name__}:abandon", f"{kind}: response {k} lost: {exc!r}", c, rig.wire(30))
+                    raised = True
+                rig.bus.fault = None
+                if raised and not judge(rig, c):
+                    ctx.inconc("call raised after a lost response but no client abort frame was seen (judged by C07)", c)
+                for mech, msg in rig.server.violations:
+                    if mech == "client-frame-not-8-bytes":
+                        ctx.violation("wire:" + mech, msg, c, rig.wire(30))
+                rig.close()
+
+
 def run(ctx, desc):
+    if desc.get("abandon"):
+        return run_abandon(ctx, desc)
     rig = make_rig()
     for c in cases(desc):
         run_case(ctx, rig, c)
@@ -264,6 +361,7 @@ def do_download(rig, c, index, sub, data):
 def do_upload_setup(rig, c, index, sub):
     srv = rig.server
     n = c["n"]
+    srv.segment_fill = None
     for k, v in c["style"].items():
         setattr(srv, k, v)
     if c["path"] == "upload-declared":
@@ -347,5 +445,7 @@ def do_upload(rig, c, index, sub):
 
 
 def replay(ctx, case):
+    if case.get("abandon"):
+        return run_abandon(ctx, {"abandon": True, "case_seed": 0, "kinds": [case["kind"]]})
     rig = make_rig()
     run_case(ctx, rig, case)
